@@ -44,6 +44,8 @@ def corpus(rep):
     for lab, m in readcheck.havoc(frag, rng, 100 if quick else 1000):
         cases.append(("frag:" + lab, {"data": init, "frag": m}))
     cases += readcheck.trun_bombs(init)
+    for name, r, _ in [f for i, f in enumerate(readcheck.valid_files(random.Random(rep.seed + 88), 4 if quick else 9)) if not quick or i in (0, 3)]:   # file 3 carries an edit list
+        cases += [("%s:%s" % (name, lab), c) for lab, c in readcheck.short_table_bombs(r)]
     return cases
 
 
